@@ -65,6 +65,14 @@ def class_atoms(cls) -> set:
         dflt = "missing" if f.default is dataclasses.MISSING else ("none" if f.default is None else "value")
         atoms.add((arr, leaf, "tag" in f.metadata, opt, arr_opt, dflt, bool(cls.__flexible__)))
     atoms.add(("kind", cls.__type__.name, bool(cls.__flexible__), len(dataclasses.fields(cls)) == 0))
+    last = None     # the field read last is special for everything about truncation and trailing bytes
+    for f in dataclasses.fields(cls):
+        if "tag" not in f.metadata:
+            last = f
+    if last is not None:
+        tp = hints[last.name]
+        opt = typing.get_origin(tp) in (types.UnionType, typing.Union)
+        atoms.add(("last", last.metadata.get("kafka_type", "entity"), "tuple" in str(tp), opt, bool(cls.__flexible__)))
     tags = sorted(int(f.metadata["tag"]) for f in dataclasses.fields(cls) if "tag" in f.metadata)
     # how many tagged fields, whether their tags are declared in ascending order, whether they start at 0
     atoms.add(("tags", min(len(tags), 4),
